@@ -1,25 +1,25 @@
 package main
 
-// Runs per tier (quick, thorough), calibrated on 16 cores: quick 30-60 s per property,
+// Runs per tier (quick, thorough), calibrated on 16 cores: quick 20-45 s per property,
 // thorough 10-20 min. One place, so cost tuning never touches a check.
 var tierRuns = map[string][2]int{
-	"C01": {3000, 60000},
-	"C02": {3000, 60000},
+	"C01": {3000, 90000},
+	"C02": {3000, 70000},
 	"C03": {6000, 200000},
-	"C04": {320, 8000},
-	"C05": {96, 2500},
-	"C06": {160, 4000},
-	"C07": {192, 5000},
-	"C08": {128, 3500},
-	"C10": {400, 10000},
-	"C11": {20000, 600000},
-	"C13": {128, 3500},
-	"C14": {4000, 120000},
-	"C15": {3000, 60000},
-	"C16": {300, 6000},
-	"C17": {400, 8000},
-	"C18": {2000, 40000},
-	"C19": {3000, 80000},
+	"C04": {288, 8000},
+	"C05": {48, 800},
+	"C06": {160, 4500},
+	"C07": {112, 3000},
+	"C08": {160, 6000},
+	"C10": {400, 12000},
+	"C11": {40000, 2000000},
+	"C13": {160, 6000},
+	"C14": {20000, 1500000},
+	"C15": {4000, 120000},
+	"C16": {640, 20000},
+	"C17": {400, 12000},
+	"C18": {1400, 30000},
+	"C19": {4000, 120000},
 	"C20": {6000, 200000},
 }
 
